@@ -175,12 +175,19 @@ func (sh *shard) quiet(r *streamRead) []byte {
 
 // wspOwn: a user's own WSP session — control and data channel on the same path
 // with the same token.
-func (h *hist) wspOwn(a *attempt, u int, path string) {
+func (h *hist) wspOwn(a *attempt, u int, path string) { h.wspOwnURL(a, u, path, "") }
+
+// wspOwnURL: both channels are opened on the URL "{path}{suffix}"; the session
+// the server opens is on path. With a suffix only "no media beyond the pull
+// right" is judged (the suffixed spelling is not a documented way to ask for path).
+func (h *hist) wspOwnURL(a *attempt, u int, path, suffix string) {
 	cred, kind, valid := h.httpCredFor(a.Cred, u)
 	allow := valid && h.m.allow(u, "pull", path)
 	a.Entry, a.Cred, a.Expect = "wsp", kind, expectWord(allow)
 	h.record(a)
-	ctl, ch, err := h.sh.wspControl(path, cred)
+	allow = allow && suffix == ""
+	url := path + suffix
+	ctl, ch, err := h.sh.wspControl(url, cred)
 	if err != nil {
 		h.note(map[string]any{"op": "access", "attempt": a, "observed": "control channel refused: " + err.Error()})
 		if strings.HasPrefix(err.Error(), "machinery") {
@@ -200,7 +207,7 @@ func (h *hist) wspOwn(a *attempt, u int, path string) {
 	var code int
 	deadline := time.Now().Add(serveBound)
 	for {
-		data, _, err = h.sh.wspDial("data", path, cred)
+		data, _, err = h.sh.wspDial("data", url, cred)
 		if err != nil {
 			if allow {
 				h.fail("over-refusal-media", "wsp: %s holds the pull right on %s and the data channel handshake was refused: %v", h.names[u], path, err)
@@ -239,7 +246,14 @@ func (h *hist) wspOwn(a *attempt, u int, path string) {
 // attemptWSP draws one WSP scenario.
 func (h *hist) attemptWSP() {
 	u := h.pickUser()
-	shape := rapid.SampledFrom([]string{"own", "own", "join-foreign", "join-foreign"}).Draw(h.t, "shape")
+	shape := rapid.SampledFrom([]string{"own", "own", "join-foreign", "join-foreign", "suffix", "suffix"}).Draw(h.t, "shape")
+	if shape == "suffix" {
+		u, path, suffix := h.pickSuffixTrick(u)
+		a := &attempt{Entry: "wsp", Shape: "suffix", Cred: rapid.SampledFrom(httpCreds).Draw(h.t, "cred"), User: u, User2: u, Path: path, Path2: path + suffix}
+		h.ntFlip(a, u, "pull", path)
+		h.wspOwnURL(a, u, path, suffix)
+		return
+	}
 	if shape == "own" {
 		a := &attempt{Entry: "wsp", Shape: "own", Cred: rapid.SampledFrom(httpCreds).Draw(h.t, "cred"), User: u, User2: u}
 		a.Path = h.pickPath(u, "pull", h.sh.live, "path")
